@@ -14,16 +14,16 @@ NOTES = ("Runtime monitoring only: every verdict is 'held on the executions desc
          "KNOWN_FINDINGS.txt lists repaired (fixed:) and tolerated (known:) genuine defects. See DESIGN.md.")
 
 add("C01", "exploration",
-    "10^6-scale lock-step differential run of generated string/key-space histories against a sequential Redis model, with per-key probes after refused commands and full dumps; right level because the quantifier is over unbounded command sequences and argument values: a total oracle over stratified random histories plus boundary pools is what runtime monitoring can offer",
+    "10^6-scale lock-step differential run of generated string/key-space histories against a sequential Redis model, with per-key probes after refused commands and full dumps, a share of the commands sent through redis.pcall (effect judged), save/kill/restart in the middle of histories, the sweeper sync-point scenario with string commands; right level because the quantifier is over unbounded command sequences and argument values: a total oracle over stratified random histories plus boundary pools is what runtime monitoring can offer",
     "trusted: the reference model (fv/model.py), the RESP client, error replies compared as a class only; don't-care forms (fv/DONTCARE.md) not generated",
     "reference-model differential monitor over recorded client histories (+ AddressSanitizer pass in thorough)", "E1+E5", "DESIGN.md 7/C01")
 
 add("C03", "exploration",
-    "10^6-scale differential run of generated list/set/hash histories against the sequential model (all index forms, duplicates, multi-key algebra with missing/wrong-type operands, admissibility of random picks), probes after refusals, invariant walk (no empty collection kept) and dump per history",
+    "10^6-scale differential run of generated list/set/hash histories against the sequential model (all index forms, duplicates, multi-key algebra with missing/wrong-type operands, admissibility of random picks), probes after refusals, invariant walk (no empty collection kept) and dump per history, a share of the commands through redis.pcall, mid-history restarts, emptied-and-recreated collections polled across their old deadline",
     "trusted: reference model, RESP client; SINTER with a missing operand before a wrong-type one and non-canonical integers are don't-cares",
     "reference-model differential monitor over recorded client histories (+ AddressSanitizer pass in thorough)", "E1+E5", "DESIGN.md 7/C03")
 add("C04", "exploration",
-    "differential run of sorted-set histories with colliding scores against a (score, member) ordered model plus the skip-list structural walker (all levels, index agreement, no NaN) every 8 commands; in-process skip-list harness under Miri/ASan in thorough",
+    "differential run of sorted-set histories with colliding scores against a (score, member) ordered model plus the skip-list structural walker (all levels, index agreement, no NaN) every 8 commands; in-process skip-list harness (sequential histories + a concurrent stage: re-scoring writer vs snapshot readers) with Miri in thorough; a share of the commands through redis.pcall, mid-history restarts",
     "trusted: reference model, float comparison of scores; walker reads the structure under its own lock at quiescent points",
     "reference-model differential monitor + hooked structural invariant walker (+ Miri/ASan on the in-process harness)", "E1+E2", "DESIGN.md 7/C04")
 add("C08", "exploration",
@@ -35,7 +35,7 @@ add("C14", "exploration",
     "trusted: own byte-wise glob matcher; pushes are buffered synchronously at publish time",
     "trace monitor over recorded per-connection event logs against a subscription-table model", "E1", "DESIGN.md 7/C14")
 add("C15", "exploration",
-    "differential run of stream histories (auto/explicit IDs at all edges, XDEL/XTRIM, range reads with bounds placed around stored IDs) against a sorted-map model with max-ever last-id; stream walker every 10 commands",
+    "differential run of stream histories (auto/explicit IDs at all edges, XDEL/XTRIM, range reads with bounds placed around stored IDs) against a sorted-map model with max-ever last-id; stream walker every 10 commands; save/kill/restart in the middle of 1 of 12 histories; a share of the commands through redis.pcall",
     "trusted: reference model; only complete ms-seq IDs are sent; field order inside an entry is not compared",
     "reference-model differential monitor + hooked stream invariant walker (+ AddressSanitizer pass in thorough)", "E1+E2+E5", "DESIGN.md 7/C15")
 
@@ -89,7 +89,7 @@ add("C13", "exploration",
     "trusted: the blocked-registry dump reflects the registry under its lock; finite-timeout expiries near an action are resolved by what the server did (either order accepted)",
     "stepwise history monitor with registry hook + conservation/exactly-once oracles under stress", "E1+E2", "DESIGN.md 7/C13")
 add("C16", "exploration",
-    "differential run of consumer-group histories (XGROUP CREATE/SETID/DESTROY/DELCONSUMER, XREADGROUP > / explicit IDs / NOACK / COUNT, XACK, XCLAIM with all options, XPENDING summary and extended forms, XDEL/XTRIM under pending entries) against a sequential model, with the PEL walker (group PEL == union of consumer PELs, delivery counts, last-delivered monotonic) every few commands",
+    "differential run of consumer-group histories (XGROUP CREATE/SETID/DESTROY/DELCONSUMER, XREADGROUP > / explicit IDs / NOACK / COUNT, XACK, XCLAIM with all options, XPENDING summary and extended forms, XDEL/XTRIM under pending entries) against a sequential model, with the PEL walker (group PEL == union of consumer PELs, delivery counts, last-delivered monotonic) every few commands; history reads, duplicate IDs, a share of the commands through redis.pcall, a timed idle-clock scenario",
     "trusted: reference model; idle times are compared as ranges from client-side brackets; forms Redis leaves unspecified are don't-cares (fv/DONTCARE.md)",
     "reference-model differential monitor + hooked pending-list invariant walker (+ AddressSanitizer pass in thorough)", "E1+E2+E5", "DESIGN.md 7/C16")
 add("C20", "exploration",
